@@ -93,7 +93,7 @@ def handle (target : String) (_tbl : CharTable) (f : List String) (impl : String
       | none => "-"      -- a cursor inside a character is outside the API's contract
       | some (l, _) =>
         if e then
-          match Spec.Completion.expectedWord defaultBreak l with
+          match Spec.Completion.expectedWordHelper defaultBreak l with
           | some (st, w) => s!"{st}/{showText w}"
           | none => "-"
         else
